@@ -16,6 +16,8 @@ for pid in sorted(props.PROPS):
             u["gen_fn"](hd, tier)
         meta = u["load_meta"](hd) if u.get("load_meta") else None
         hs = u["harnesses"](tier, meta)
+        import shutil
+        shutil.rmtree(hd, ignore_errors=True)
         tot += len(hs)
         print("%s %-8s %3d  %s" % (pid, u["name"], len(hs), " ".join(h.split("::")[-1] for h in hs[:400]) if only else ""))
     print("%s total %d" % (pid, tot))
